@@ -21,6 +21,7 @@ import (
 	"sync/atomic"
 
 	api "k8s.io/api/core/v1"
+	discoveryv1 "k8s.io/api/discovery/v1"
 	metav1 "k8s.io/apimachinery/pkg/apis/meta/v1"
 	"sigs.k8s.io/controller-runtime/pkg/client"
 
@@ -40,11 +41,15 @@ type event struct {
 	Old  *bool  `json:"old,omitempty"`
 	New  *bool  `json:"new,omitempty"`
 	Term *bool  `json:"term,omitempty"`
+	// Endpoints / EndpointSlice: the addresses differ between the old and the new object; Svc: service (ns/name) the slice is labelled with
+	Chg *bool   `json:"chg,omitempty"`
+	Svc *string `json:"svc,omitempty"`
 }
 
 type step struct {
-	Ev string `json:"ev"`
-	E  *event `json:"e,omitempty"`
+	Ev    string `json:"ev"`
+	E     *event `json:"e,omitempty"`
+	Slice bool   `json:"slice,omitempty"` // ev = Mode: --enable-endpointslices-api
 }
 
 type batch struct {
@@ -63,6 +68,8 @@ type batch struct {
 type line struct {
 	Ev  string    `json:"ev"`
 	ID  string    `json:"id,omitempty"`
+	// Reset: the EndpointSlice option of the execution
+	Slice *bool `json:"slice,omitempty"`
 	E   *event    `json:"e,omitempty"`
 	Acc *bool     `json:"acc,omitempty"`
 	Q   *[]string `json:"q,omitempty"`
@@ -134,6 +141,32 @@ func objects(e *event, rev int) (old, cur client.Object) {
 	case "Endpoints":
 		o := kobj.Endpoints(ns, name, []string{"10.0.0.1:p"}, nil, ":8080")
 		n := kobj.Endpoints(ns, name, []string{"10.0.0.1:p", "10.0.0.2:q"}, nil, ":8080")
+		if !b(e.Chg) {
+			// same subsets, something else differs
+			n = kobj.Endpoints(ns, name, []string{"10.0.0.1:p"}, nil, ":8080")
+			n.Annotations = map[string]string{"rev": strconv.Itoa(rev)}
+			n.ResourceVersion = strconv.Itoa(rev + 1)
+		}
+		return o, n
+	case "EndpointSlice":
+		mk := func(ips ...string) *discoveryv1.EndpointSlice {
+			sl := &discoveryv1.EndpointSlice{ObjectMeta: kobj.Meta(ns, name, 0), AddressType: discoveryv1.AddressTypeIPv4}
+			sl.TypeMeta = metav1.TypeMeta{Kind: "EndpointSlice", APIVersion: "discovery.k8s.io/v1"}
+			if e.Svc != nil && *e.Svc != "" {
+				_, svc := split(*e.Svc)
+				sl.Labels = map[string]string{"kubernetes.io/service-name": svc}
+			}
+			for _, ip := range ips {
+				sl.Endpoints = append(sl.Endpoints, discoveryv1.Endpoint{Addresses: []string{ip}})
+			}
+			return sl
+		}
+		o, n := mk("10.0.0.1"), mk("10.0.0.1", "10.0.0.2")
+		if !b(e.Chg) {
+			n = mk("10.0.0.1")
+			n.Annotations = map[string]string{"rev": strconv.Itoa(rev)}
+			n.ResourceVersion = strconv.Itoa(rev + 1)
+		}
 		return o, n
 	case "Gateway":
 		o := kobj.Gateway(ns, name, "haproxy", []kobj.Listener{{Name: "l1", Port: 80, Protocol: "HTTP", From: "Same"}})
@@ -209,7 +242,16 @@ func batchOf(ch *convtypes.ChangedObjects) *batch {
 	return b
 }
 
-func key(e *event) string { return e.Op + "/" + e.Res + ":" + e.Name }
+// key is Watchers!Key: a slice is filed under the Endpoints kind and the name of its service
+func key(e *event) string {
+	if e.Res == "EndpointSlice" {
+		if e.Svc != nil && *e.Svc != "" {
+			return e.Op + "/Endpoints:" + *e.Svc
+		}
+		return e.Op + "/Endpoints:" + e.Name
+	}
+	return e.Op + "/" + e.Res + ":" + e.Name
+}
 
 func pb(b bool) *bool         { return &b }
 func pi(i int) *int           { return &i }
@@ -226,7 +268,12 @@ func runSeq(p *pipeline.Pipeline, id string, steps []step, enc *json.Encoder) {
 			q = append(q, "partial")
 		}
 	})
-	_ = enc.Encode(line{Ev: "Reset", ID: id})
+	slice := len(steps) > 0 && steps[0].Ev == "Mode" && steps[0].Slice
+	if len(steps) > 0 && steps[0].Ev == "Mode" {
+		steps = steps[1:]
+	}
+	p.Cfg.EnableEndpointSliceAPI = slice
+	_ = enc.Encode(line{Ev: "Reset", ID: id, Slice: pb(slice)})
 	nf, np := 0, 0
 	j := 0
 	var held *convtypes.ChangedObjects // the reconciliation keeps its batch while later events arrive
@@ -286,7 +333,15 @@ func program(rnd *rand.Rand, p, n int) []*event {
 			e.Res, e.Name = "Secret", name
 		case k < 9:
 			if rnd.Intn(2) == 0 {
-				e.Res, e.Name = "Endpoints", name
+				e.Res, e.Name, e.Chg = "Endpoints", name, pb(rnd.Intn(3) > 0)
+				if rnd.Intn(2) == 0 {
+					// the slice of a service nobody else names in this execution
+					e.Res, e.Name, e.Svc = "EndpointSlice", name+"-k1", &name
+					if rnd.Intn(3) == 0 {
+						none := ""
+						e.Svc = &none
+					}
+				}
 			} else if rnd.Intn(4) == 0 {
 				e.Res, e.Name, e.Old, e.New = "GatewayClass", fmt.Sprintf("gc-p%d-%d", p, j), pb(rnd.Intn(2) == 0), pb(rnd.Intn(2) == 0)
 			} else {
@@ -309,6 +364,8 @@ func runConc(p *pipeline.Pipeline, id string, seed int64, producers, perProducer
 			atomic.AddInt64(&np, 1)
 		}
 	})
+	slice := seed%2 == 1
+	p.Cfg.EnableEndpointSliceAPI = slice
 	rnd := rand.New(rand.NewSource(seed))
 	progs := make([][]*event, producers)
 	for i := range progs {
@@ -385,7 +442,7 @@ func runConc(p *pipeline.Pipeline, id string, seed int64, producers, perProducer
 			}
 		}
 	}
-	_ = enc.Encode(line{Ev: "Reset", ID: id})
+	_ = enc.Encode(line{Ev: "Reset", ID: id, Slice: pb(slice)})
 	emit := func(d *done) {
 		_ = enc.Encode(line{Ev: "Deliver", E: d.e, Acc: pb(d.acc), Q: ps([]string{"?"}), P: pi(d.p), J: pi(d.j)})
 	}
